@@ -124,19 +124,36 @@ func (d *Driver) buildVariant(v Variant) (string, error) {
 }
 
 func lastOpenCase(journal string) string {
+	c, _ := lastOpenCaseMark(journal)
+	return c
+}
+
+// lastOpenCaseMark returns the case that was begun but not ended, and the last
+// sub-step mark journaled inside it.
+func lastOpenCaseMark(journal string) (string, string) {
 	b, err := os.ReadFile(journal)
 	if err != nil {
-		return ""
+		return "", ""
+	}
+	if len(b) > 1<<20 {
+		b = b[len(b)-1<<20:]
 	}
 	lines := strings.Split(strings.TrimSpace(string(b)), "\n")
-	if len(lines) == 0 {
-		return ""
+	mark := ""
+	for i := len(lines) - 1; i >= 0; i-- {
+		l := lines[i]
+		switch {
+		case strings.HasPrefix(l, "M "):
+			if mark == "" {
+				mark = l[2:]
+			}
+		case strings.HasPrefix(l, "B "):
+			return l[2:], mark
+		case strings.HasPrefix(l, "E "):
+			return "", ""
+		}
 	}
-	last := lines[len(lines)-1]
-	if strings.HasPrefix(last, "B ") {
-		return last[2:]
-	}
-	return ""
+	return "", ""
 }
 
 func tailFile(path string, n int) string {
@@ -212,8 +229,11 @@ func (d *Driver) runShard(bin string, v Variant, shard, nshards int, timeout tim
 		if ee, ok := err.(*exec.ExitError); ok {
 			code = ee.ExitCode()
 		}
-		open := lastOpenCase(journalPath(d.Root, d.Prop.ID, v.Name, shard))
+		open, mark := lastOpenCaseMark(journalPath(d.Root, d.Prop.ID, v.Name, shard))
 		stderrHead := headFile(errPath, 1500)
+		if mark != "" {
+			stderrHead = "last journaled step: " + mark + " | " + stderrHead
+		}
 		if code == 3 || code == 4 || open == "" || !d.Prop.DeathIsViolation {
 			d.mu(func() {
 				d.Agg.Inconcl = append(d.Agg.Inconcl, fmt.Sprintf("worker %s/%d died (exit %d, %v) on case %q: %s", v.Name, shard, code, err, open, stderrHead))
@@ -506,8 +526,12 @@ func (d *Driver) finish() int {
 	}
 	sort.Strings(kf)
 	cov["known_finding_hits"] = kf
+	level := p.Level
+	if level == "" {
+		level = "exploration"
+	}
 	ev := map[string]any{
-		"property_id": p.ID, "tier": d.Tier, "seed": d.Seed, "level": "exploration",
+		"property_id": p.ID, "tier": d.Tier, "seed": d.Seed, "level": level,
 		"coverage": cov, "assumptions": p.Assumptions, "wall_s": time.Since(d.Start).Seconds(),
 		"violations": len(unlisted),
 	}
